@@ -584,6 +584,7 @@ def _run_laws(case):
         if nm != "C":
             flags[nm + ".longdouble2_mul_guess"] = _no_raise(lambda: float((np.longdouble(2) * p).guess) == 2 * p.guess)
             # unsigned NumPy integers are numbers like any other (F77); dividing by a NumPy zero is dividing by zero (F81)
+            flags[nm + ".sub_most_negative_int8"] = _no_raise(lambda: (p - np.int8(-128)).guess == p.guess + 128 and (p - np.int64(-2 ** 63)).guess == p.guess + 2.0 ** 63)     # (F142)
             flags[nm + ".sub_uint8"] = _no_raise(lambda: (p - np.uint8(1)).guess == p.guess - 1 and (p - np.uint64(3)).guess == p.guess - 3)
         flags[nm + ".div_np_zero_raises"] = _raises((ZeroDivisionError, TypeError), lambda: p / np.float64(0)) and _raises((ZeroDivisionError, TypeError), lambda: p / np.int64(0))
         q = p.renamed("zz")
